@@ -405,9 +405,9 @@ def _shard(ctx: Ctx, shard: int, nshards: int, n: int, max_ops: int) -> None:
 
 def run(ctx: Ctx) -> None:
     if ctx.quick:
-        shard_run(ctx, _shard, extra=(40, 25))
+        shard_run(ctx, _shard, extra=(250, 25))
     else:
-        shard_run(ctx, _shard, extra=(600, 60))
+        shard_run(ctx, _shard, extra=(4000, 60))
 
 
 def replay(ctx: Ctx, case: dict) -> None:
